@@ -5,3 +5,5 @@ pub mod fsutil;
 pub mod gen;
 pub mod pool;
 pub mod run;
+pub mod world;
+pub mod vals;
